@@ -80,11 +80,13 @@ def items_for(tier):
     return items
 
 
-def scenario(pids, panel, wkey, lkey, threads, V, sv, df, np_shim=True):
+def scenario(pids, panel, wkey, lkey, threads, V, sv, df, np_shim=True, Vref=None):
     import biogeme.biogeme as bio
     from biogeme.parameters import Parameters
     from biogeme.database import Database
     info = Info(df)
+    Vb = V  # values used to build the expressions (symbolic or concrete)
+    V = Vref or V  # the reference is always written over symbolic variables
     spec = PANEL if panel else CROSS
     names = ['ab', 'zb']
     eqs = []
@@ -96,7 +98,7 @@ def scenario(pids, panel, wkey, lkey, threads, V, sv, df, np_shim=True):
         groups.append([i for i, q in enumerate(pids) if q == p])
     obs_rows = groups if panel else [[i] for i in range(len(pids))]
     N = len(obs_rows)
-    B = Builder(V)
+    B = Builder(Vb)
     formulas = {lkey: B.build(spec)}
     if wkey:
         formulas[wkey] = B.build(WEIGHT)
@@ -247,7 +249,7 @@ def concrete_run(case):
     V = Values(concrete=asg)
     sv = lambda n: float(asg[n])
     try:
-        eqs = scenario(pids, panel, wkey, lkey, threads, V, sv, frame(pids, asg), np_shim=False)
+        eqs = scenario(pids, panel, wkey, lkey, threads, V, sv, frame(pids, asg), np_shim=False, Vref=Values())
     except Exception as e:  # noqa: BLE001
         return dict(reproduced=True, detail=f'raises {type(e).__name__}: {str(e)[:300]}')
     bad = []
